@@ -38,6 +38,9 @@ type Task struct {
 	exited  bool
 	adopted bool
 	budget  int // parallel mode: optional yields this task may still pass through
+	// Group names the simulated process instance this task belongs to (inherited
+	// by the tasks it spawns); a frozen group is never scheduled again (crash).
+	Group string
 	Panic   any
 	Stack   string
 }
@@ -105,6 +108,7 @@ type Sched struct {
 	parked     map[*Task]struct{}
 	tasks      []*Task
 	anon       map[string]int
+	frozen     map[string]bool
 	signal     chan struct{}
 	abortCh    chan struct{}
 	aborting   atomic.Bool
@@ -151,6 +155,7 @@ func New(cfg Config) *Sched {
 		byGoid:    map[int64]*Task{},
 		parked:    map[*Task]struct{}{},
 		anon:      map[string]int{},
+		frozen:    map[string]bool{},
 		signal:    make(chan struct{}, 1),
 		abortCh:   make(chan struct{}),
 		rng:       rand.New(rand.NewPCG(cfg.Seed, cfg.Seed^0x9e3779b97f4a7c15)),
@@ -304,13 +309,16 @@ func CurrentLabel() string {
 
 // Adopt labels the calling goroutine (created by un-instrumented code) so it
 // can be scheduled; hint must be canonical (e.g. derived from a SimConn id).
-func Adopt(hint string) {
+func Adopt(hint string) { AdoptIn(hint, "") }
+
+// AdoptIn is Adopt with the process-instance group the goroutine belongs to.
+func AdoptIn(hint, group string) {
 	s := cur.Load()
 	if s == nil {
 		return
 	}
 	if s.current() == nil {
-		t := s.adopt(hint)
+		t := s.adoptIn(hint, group)
 		// A goroutine started by un-instrumented code (net/http's per-connection
 		// goroutine) runs concurrently with whoever started it until it gets here:
 		// from now on it is an ordinary task that only runs when scheduled.
@@ -318,7 +326,9 @@ func Adopt(hint string) {
 	}
 }
 
-func (s *Sched) adopt(hint string) *Task {
+func (s *Sched) adopt(hint string) *Task { return s.adoptIn(hint, "") }
+
+func (s *Sched) adoptIn(hint, group string) *Task {
 	id := goid()
 	s.mu.Lock()
 	defer s.mu.Unlock()
@@ -327,7 +337,7 @@ func (s *Sched) adopt(hint string) *Task {
 	}
 	n := s.anon[hint]
 	s.anon[hint] = n + 1
-	t := &Task{Label: "~" + hint + "#" + strconv.Itoa(n), goid: id, wake: make(chan struct{}), adopted: true}
+	t := &Task{Label: "~" + hint + "#" + strconv.Itoa(n), goid: id, wake: make(chan struct{}), adopted: true, Group: group}
 	s.byGoid[id] = t
 	s.byGoidSync.Store(id, t)
 	s.tasks = append(s.tasks, t)
@@ -372,6 +382,9 @@ func (s *Sched) GoTask(label string, f func()) *Task {
 
 func (s *Sched) spawn(label string, f func()) *Task {
 	t := &Task{Label: label, wake: make(chan struct{})}
+	if p := s.current(); p != nil {
+		t.Group = p.Group
+	}
 	s.mu.Lock()
 	s.tasks = append(s.tasks, t)
 	s.mu.Unlock()
@@ -691,14 +704,14 @@ func (s *Sched) enabled(now time.Time) []action {
 	s.mu.Lock()
 	defer s.mu.Unlock()
 	acts := make([]action, 0, len(s.parked)+4)
-	if s.last != nil {
+	if s.last != nil && !s.frozen[s.last.Group] {
 		if _, ok := s.parked[s.last]; ok {
 			acts = append(acts, action{t: s.last})
 		}
 	}
 	rest := make([]*Task, 0, len(s.parked))
 	for t := range s.parked {
-		if t != s.last {
+		if t != s.last && !(t.Group != "" && s.frozen[t.Group]) {
 			rest = append(rest, t)
 		}
 	}
@@ -730,6 +743,47 @@ func (s *Sched) enabled(now time.Time) []action {
 		acts = append(acts, action{e: e})
 	}
 	return acts
+}
+
+// SetGroup puts the calling task (and everything it spawns from now on) into
+// process-instance group g.
+func SetGroup(g string) {
+	if s := cur.Load(); s != nil {
+		if t := s.current(); t != nil {
+			t.Group = g
+		}
+	}
+}
+
+// CurrentGroup returns the group of the calling task ("" if none).
+func CurrentGroup() string {
+	if s := cur.Load(); s != nil {
+		if t := s.current(); t != nil {
+			return t.Group
+		}
+	}
+	return ""
+}
+
+// Freeze models the crash of a process instance: no task of group g is ever
+// scheduled again (they stay parked until tear-down). Timers they armed may
+// still fire, the woken task parks at its mandatory schedule point and stays
+// there.
+func (s *Sched) Freeze(g string) {
+	if g == "" {
+		return
+	}
+	s.mu.Lock()
+	s.frozen[g] = true
+	s.mu.Unlock()
+	s.Logf("freeze %s", g)
+}
+
+// Frozen reports whether group g was frozen.
+func (s *Sched) Frozen(g string) bool {
+	s.mu.Lock()
+	defer s.mu.Unlock()
+	return g != "" && s.frozen[g]
 }
 
 // Teardown aborts all tasks. Call it on the scheduler goroutine after Run.
